@@ -191,6 +191,12 @@ class BitStringEncoder(AbstractItemEncoder):
             value = asn1Spec.clone(value)
 
         valueLength = len(value)
+
+        if value.subtypeSpec:
+            # the padded value and its fragments are internal to the
+            # encoder, the constraints of the value do not apply to them
+            value = univ.BitString(value, tagSet=value.tagSet)
+
         if valueLength % 8:
             alignedValue = value << (8 - valueLength % 8)
         else:
